@@ -1,4 +1,5 @@
 import RjModel.Lemmas.PlannerInv
+import RjModel.Generated.Decisions
 /-! # C13 — what gets deleted and copied does not depend on message timing
 
 Model objects: `prun c PState.init evs` is `query_entries` fed with the merged arrival sequence `evs`
@@ -97,5 +98,24 @@ example :
     ((srcOf evs).map (·.1)).Nodup ∧ ((dstOf evs).map (·.1)).Nodup ∧
     (prun c PState.init evs).map (fun s => (s.del.reverseOrder.keys, s.cpy.keys)) = some (["x", "d"], ["a", "d", "d/f"]) := by
   decide
+
+/-! ### the two decision functions are the source's: translated, not hand-copied -/
+
+/-- **`needs_delete` of `boss_sync.rs`, translated from the source on every run** (`extract/translate.py`: a Rust-to-Lean translator
+for the subset the function is written in - `match` on `EntryDetails`, `if`/`else if` over `!=`, `&&`; anything outside the subset makes
+`decisionsTranslated` false), **is the model's `needsDelete`** - for every configuration and every pair of entries.  The planner
+theorems (C13, C01, C03, C04, C12) speak about `needsDelete`; through this obligation they speak about the function in the file. -/
+theorem C13_needs_delete_is_the_sources : Generated.decisionsTranslated = true ∧
+    ∀ c s d, Generated.needsDeleteSrc c s d = needsDelete c s d := by
+  refine ⟨by decide, ?_⟩
+  intro c s d
+  cases s <;> cases d <;> simp [Generated.needsDeleteSrc, needsDelete]
+
+/-- **`needs_copy`, translated, is the model's `needsCopy`** wherever it is called (the kinds agree: `needs_delete` said no); the
+`panic!("Wrong entry type")` arm - outer `none` of the translation - is then unreachable (a C18 guard). -/
+theorem C13_needs_copy_is_the_sources (c : PCfg) (s d : Details) (h : needsDelete c s d = false) :
+    Generated.needsCopySrc c s d = some (needsCopy c s d) := by
+  cases s <;> cases d <;> simp_all [Generated.needsCopySrc, needsCopy, needsDelete]
+  all_goals (split <;> split <;> rfl)
 
 end Rj.C13
